@@ -15,11 +15,12 @@ import (
 )
 
 type redirInput struct {
-	name     string
-	data     []byte
-	complete bool // a complete first record/request or an unrecognisable first byte: everything must be relayed
-	replayed bool // the hello's random is already in the replay cache
-	method   string
+	name       string
+	data       []byte
+	complete   bool // a complete first record/request or an unrecognisable first byte: everything must be relayed
+	replayed   bool // the hello's random is already in the replay cache
+	replayedWS bool
+	method     string
 }
 
 func tlsRecord(declared int, body []byte) []byte {
@@ -93,6 +94,13 @@ func redirInputs(family string, hello, helloBadUID, helloBadMethod []byte) []red
 		in = append(in, redirInput{name: "get-then-body", data: append(get("-", ""), patternN(50, 1)...), complete: true})
 		in = append(in, redirInput{name: "get-long-header-line", data: get("-", "X-Long: "+strings.Repeat("a", 3100)+"\r\n"), complete: true})
 		in = append(in, redirInput{name: "get-200-header-lines", data: get("-", strings.Repeat("X-H: v\r\n", 200)), complete: true})
+		if len(hello) > 0 {
+			// hello / helloBadUID / helloBadMethod are WebSocket GETs in this family
+			in = append(in, redirInput{name: "cloak-ws-replayed", data: hello, complete: true, replayedWS: true})
+			in = append(in, redirInput{name: "cloak-ws-unauthorised-uid", data: helloBadUID, complete: true})
+			in = append(in, redirInput{name: "cloak-ws-unknown-proxy-method", data: helloBadMethod, complete: true})
+			in = append(in, redirInput{name: "cloak-ws-unauthorised-uid-then-data", data: append(append([]byte{}, helloBadUID...), patternN(40, 9)...), complete: true})
+		}
 		in = append(in, redirInput{name: "get-unterminated", data: []byte("GET / HTTP/1.1\r\nHost: x\r\n"), complete: false})
 		in = append(in, redirInput{name: "get-bare-G", data: []byte("G"), complete: false})
 		in = append(in, redirInput{name: "get-no-crlf-3100", data: []byte("G" + strings.Repeat("b", 3100)), complete: true})
@@ -115,6 +123,13 @@ func redirOne(in redirInput, cuts []int, script string, hello []byte) {
 		var raw [32]byte
 		copy(raw[:], hello[11:43])
 		r.sta.UsedRandom[raw] = time.Now().Unix()
+	}
+	if in.replayedWS {
+		var rnd [32]byte
+		copy(rnd[:], hiddenOf(in.data))
+		r.sta.UsedRandom[rnd] = time.Now().Unix()
+		rnd[31] &= 0x7f
+		r.sta.UsedRandom[rnd] = time.Now().Unix()
 	}
 	if script == "dialfail" {
 		r.sta.RedirDialer = &vnet.Dialer{N: r.net, FailAll: true}
@@ -239,8 +254,26 @@ func init() {
 		hello, _ := captureFirst(hsCase{Transport: "direct", Browser: "firefox", Method: "plain", ProxyMethod: "shadowsocks", SID: 4, ServerName: "example.com", Offset: voff}, uid)
 		helloBadUID, _ := captureFirst(hsCase{Transport: "direct", Browser: "firefox", Method: "plain", ProxyMethod: "shadowsocks", SID: 4, ServerName: "example.com", Offset: voff}, uidOf(1))
 		helloBadMethod, _ := captureFirst(hsCase{Transport: "direct", Browser: "firefox", Method: "plain", ProxyMethod: "nosuchmethod", SID: 4, ServerName: "example.com", Offset: voff}, uid)
+		if family == "http" {
+			// the WebSocket shape of the same three packets (captured behind the TLS terminator)
+			hello, _ = captureFirst(hsCase{Transport: "cdn", Browser: "chrome", Method: "plain", ProxyMethod: "shadowsocks", SID: 4, ServerName: "example.com", Offset: voff}, uid)
+			helloBadUID, _ = captureFirst(hsCase{Transport: "cdn", Browser: "chrome", Method: "plain", ProxyMethod: "shadowsocks", SID: 4, ServerName: "example.com", Offset: voff}, uidOf(1))
+			helloBadMethod, _ = captureFirst(hsCase{Transport: "cdn", Browser: "chrome", Method: "plain", ProxyMethod: "nosuchmethod", SID: 4, ServerName: "example.com", Offset: voff}, uid)
+		}
 		vrt.UnseedPlainRand()
 		inputs := redirInputs(family, hello, helloBadUID, helloBadMethod)
+		if family == "http" {
+			res := runSchedOnce(c.Seed, 10*time.Second, func() {
+				r := newE2ERig(nil, nil, nil)
+				if _, _, err := AuthFirstPacket(hello, WebSocket{}, r.sta); err != nil {
+					vrt.Fail("harness", "the captured WebSocket request does not authenticate on the virtual clock: %v", err)
+				}
+			})
+			if res.Status != vrt.Complete {
+				rep.HarnessError = res.Msg
+				return rep
+			}
+		}
 		if family == "hello" {
 			// self-check: on the virtual clock the captured hello authenticates, so the rejected variants
 			// below are rejected for the reason their name says
